@@ -12,7 +12,7 @@ R14.5 closest_iter plumbing: sort key is target.distance(peer.key); the filter k
 Not decided: ordering/exactness of closest() over all targets (value reasoning).
 """
 import re
-from common import short, proj_roots, from_field, slice_locals, polarity, closure_returns, closure_arg
+from common import short, proj_roots, from_field, slice_locals, polarity, closure_returns, closure_arg, map_presence_edges, nested_closures, closure_operand, keeps_iff
 import guards
 
 EXPLANATION = ("Who-may, bounded-growth and guarded-by rules over the MIR CFG of KBucket / RoutingTable: the single growth site of a bucket "
@@ -34,8 +34,10 @@ def r14_1(ctx, fx):
         for c in fn.calls(GROW_RX):
             if re.search(r"\.nodes\b", fn.recv(c)):
                 growers.append((key, c))
+    # (VacantSlot::insert, or the function it was written out in: engine/normalise.py `absorbed_fns`)
+    slot_keys = {fx.fn(k).key for k in fx.find(r"^protocol::libp2p::kademlia::bucket::VacantSlot(::<.*>)?::insert$") if fx.fn(k) is not None}
     ctx.ob("R14.1", "KBucket.nodes-grown-only-by-the-push-of-VacantSlot::insert",
-           len(growers) == 1 and re.search(r"bucket::VacantSlot(::<.*>)?::insert$", growers[0][0]) is not None and growers[0][1].matches(r"Vec::push$"), cfg=fx.cfg,
+           len(growers) == 1 and growers[0][0] in slot_keys and growers[0][1].matches(r"Vec::push$"), cfg=fx.cfg,
            detail="growth sites: %s" % [(short(k), c.name) for k, c in growers])
     adt = fx.adts.get(KB + "KBucket")
     if adt is not None:
@@ -136,18 +138,159 @@ def _index_local(fn, o):
     return pr, slice_locals(fn, pr.args[1])
 
 
+ALLOWED_EVICT = ("NotConnected", "CannotConnect")
+
+
+def _idx_closure(fn, locs):
+    """locals carrying the same index value as any of `locs` (copies in both directions)"""
+    out = set(locs)
+    for l in list(locs):
+        out |= fn.copies_of(l)
+        out |= slice_locals(fn, {"c": [l]})
+    return out
+
+
+def element_tests(fx, fn):
+    """Tests of one element of `self.nodes` in KBucket::entry, whatever the spelling:
+         loop form      `for i in 0..len { if self.nodes[i].key == key .. / match self.nodes[i].connection .. }`
+         iterator form  `self.nodes.iter().position(|n| n.key == key)` / `.position(|n| matches!(n.connection, ..))`
+       -> [{"kind": "key" | "conn", "idx": locals holding the element's index, "edges": {(switch, label)} on which the test holds,
+            "miss": {(switch, label)} on which no element passed (iterator form only)}]"""
+    out = []
+    # ---- loop form: key equality
+    for c in fn.calls(r"PartialEq(<.*>)?>?::eq$"):
+        if len(c.args) != 2 or not c.dest:
+            continue
+        a0 = fn.origin(c.args[0])
+        m = re.match(r"&?_(\d+)", a0)
+        lp, li = _index_local(fn, {"c": [int(m.group(1))]}) if m else (None, set())
+        if lp is None or not a0.endswith(".key") or guards.rootstrs(fn, c.args[1]) != {"param:_2"}:
+            continue
+        out.append({"kind": "key", "idx": _idx_closure(fn, li), "edges": {(sw, t) for sw, t, f in fn.bool_tests(c.dest[0])}, "miss": set(), "site": c.node})
+    # ---- loop form: connection state (discriminant switch, or `== NotConnected || == CannotConnect`)
+    for sw in fn.discr_switches():
+        if not (sw[2] and sw[2].endswith("ConnectionType") and "".join(map(str, sw[1][1:])).endswith(".connection")):
+            continue
+        swpr, swidx = _index_local(fn, {"c": [sw[1][0]]})
+        if swpr is None:
+            continue
+        allowed = []
+        for v in ALLOWED_EVICT:
+            allowed += fn.variant_edges(sw, v)
+        if [v for v in ("Connected", "CanConnect") if set(fn.variant_edges(sw, v)) & set(allowed)]:
+            continue
+        out.append({"kind": "conn", "idx": _idx_closure(fn, swidx), "edges": {(sw[0], l) for l in allowed}, "miss": set(), "site": sw[0], "conj": True})
+    eq_edges = {}
+    for c in fn.calls(r"::eq$"):
+        if len(c.args) != 2 or not c.dest:
+            continue
+        other = None
+        for a, b_ in ((c.args[0], c.args[1]), (c.args[1], c.args[0])):
+            rs = fn.roots(a)
+            sh = {x.lstrip("&") for x in fn.shape(a)}
+            if (rs and all(r[0] == "const" and re.search(r"ConnectionType::(NotConnected|CannotConnect)$", r[1]) for r in rs)) or (sh and sh <= set(ALLOWED_EVICT)):
+                other = b_
+        if other is None:
+            continue
+        from common import ref_local
+        cand = set(slice_locals(fn, other))
+        rl_ = ref_local(fn, other)
+        if rl_ is not None:
+            cand |= slice_locals(fn, {"c": [rl_]})
+        for l in cand:
+            for n_, k_, p_ in fn.defs().get(l, []):
+                if k_ == "assign" and p_["rv"]["r"] in ("use", "ref"):
+                    q = (p_["rv"].get("o") or {}).get("c") or (p_["rv"].get("o") or {}).get("m") or p_["rv"].get("p")
+                    if q and "".join(map(str, q[1:])).endswith(".connection"):
+                        pr_, il_ = _index_local(fn, {"c": [q[0]]})
+                        if pr_ is not None:
+                            key_ = tuple(sorted(il_))
+                            eq_edges.setdefault(key_, set()).update((sw_, t_) for sw_, t_, f_2 in fn.bool_tests(c.dest[0]))
+    for il_, edges in eq_edges.items():
+        # `a == X || b == Y`: the element passes on either true edge; a node is "behind the test" when it is unreachable with all of
+        # them cut (conj=False)
+        out.append({"kind": "conn", "idx": _idx_closure(fn, set(il_)), "edges": edges, "miss": set(), "site": None, "conj": False})
+    # ---- iterator form
+    for c in fn.calls(r"Iterator>?::position$"):
+        if len(c.args) != 2 or len(c.dest) != 1:
+            continue
+        rs = fn.roots(c.args[0])
+        if not any(r[0] == "param" and r[1] == 1 and ".nodes" in r[2] for r in rs) or not any(r[0] == "call" and re.search(r"slice::(<impl \[T\]>::)?iter$|Vec(<.*>)?::iter$", r[1]) for r in rs):
+            continue
+        if any(r[0] == "call" and re.search(r"Iterator>?::(skip|rev|chain|filter|step_by|skip_while)$", r[1]) for r in rs):
+            continue        # the position would not be an index into nodes
+        cl = closure_operand(fx, fn, c.args[1])
+        if cl is None:
+            continue
+        kind = None
+        rets = closure_returns(cl)
+        if rets and all(r is not None and r[0] == 1 and r[1].matches(r"PartialEq(<.*>)?>?::eq$") for r in rets):
+            e = rets[0][1]
+            o0, o1 = cl.origin(e.args[0]), cl.origin(e.args[1])
+            elem = [o for o in (o0, o1) if re.match(r"^&?_2\*?\.key$", o)]
+            capt = [a for a, o in ((e.args[0], o0), (e.args[1], o1)) if o.startswith(("_1", "&_1"))]
+            # the captured operand is the `key` parameter of entry()
+            cap_ok = False
+            d = fn.single_def((c.args[1].get("m") or c.args[1].get("c"))[0])
+            if d is not None and d[1] == "assign" and d[2]["rv"]["r"] == "agg":
+                cap_ok = all(guards.rootstrs(fn, o) == {"param:_2"} for o in d[2]["rv"].get("ops", [])) and bool(d[2]["rv"].get("ops"))
+            if len(elem) == 1 and len(capt) == 1 and cap_ok:
+                kind = "key"
+        else:
+            # true only for an element whose connection is NotConnected / CannotConnect
+            trues = [n for n, sh in cl.ret_sites() if not sh <= {"const:0"}]
+            sws = [sw for sw in cl.discr_switches() if sw[2] and sw[2].endswith("ConnectionType") and re.match(r"^&?_2\*?\.connection$", cl.origin({"c": list(sw[1])}))]
+            if trues and sws:
+                sw = sws[0]
+                allowed = []
+                for v in ALLOWED_EVICT:
+                    allowed += cl.variant_edges(sw, v)
+                shared = [v for v in ("Connected", "CanConnect") if set(cl.variant_edges(sw, v)) & set(allowed)]
+                if not shared and all(cl.only_via(n, sw[0], allowed) for n in trues):
+                    kind = "conn"
+        if kind is None:
+            continue
+        cp = fn.copies_of(c.dest[0]) | {c.dest[0]}
+        edges, miss, idx = set(), set(), set()
+        for sw in fn.discr_switches():
+            if sw[1] and sw[1][0] in cp and len(sw[1]) == 1:
+                some, none = fn.variant_edges(sw, "Some"), fn.variant_edges(sw, "None")
+                edges |= {(sw[0], l) for l in some if l not in none}
+                miss |= {(sw[0], l) for l in none if l not in some}
+        for n_, s_ in fn.assigns():
+            if s_["rv"]["r"] == "use" and len(s_["lhs"]) == 1:
+                q = s_["rv"]["o"].get("m") or s_["rv"]["o"].get("c")
+                if q and q[0] in cp and "".join(map(str, q[1:])) == "@Some.0":
+                    idx.add(s_["lhs"][0])
+        for l in list(idx):
+            idx |= {x for x in range(len(fn.locals)) if l in slice_locals(fn, {"c": [x]})}
+        out.append({"kind": kind, "idx": idx, "edges": edges, "miss": miss, "site": c.node, "conj": False, "position": True})
+    return out
+
+
+def _behind(fn, node, t):
+    """node is reachable only over an edge on which test t holds"""
+    if not t["edges"]:
+        return False
+    if t.get("conj"):
+        sws = {sw for sw, l in t["edges"]}
+        return len(sws) == 1 and fn.only_via(node, list(sws)[0], [l for sw, l in t["edges"]])
+    return node not in fn.reach([fn.entry], cut=t["edges"])
+
+
 def r14_3(ctx, fx):
     """eviction safety and lookup discipline of KBucket::entry, and what KBucketEntry::insert / VacantSlot::insert write"""
     fn = ctx.fn(fx, KB + "KBucket::entry", "R14.3")
     if fn is not None:
+        for cl in nested_closures(fx, fn):
+            ctx.bodies.add((fx.cfg, cl.key))
         vac = fn.aggregates(r"KBucketEntry$", "Vacant")
         occ = fn.aggregates(r"KBucketEntry$", "Occupied")
         slots = [(n, s_) for n, s_ in fn.aggregates(r"bucket::VacantSlot$")]
         ctx.anchor("R14.3", "KBucket::entry: Vacant aggregates", len(vac), 2, cfg=fx.cfg)
         ctx.anchor("R14.3", "KBucket::entry: Occupied aggregates", len(occ), 1, cfg=fx.cfg)
-        conn_sw = [sw for sw in fn.discr_switches() if sw[2] and sw[2].endswith("ConnectionType") and "".join(map(str, sw[1][1:])).endswith(".connection")]
-        conn_eq = [c for c in fn.calls(r"::eq$") if "ConnectionType" in c.name]
-        ctx.anchor("R14.3", "KBucket::entry: switch on nodes[i].connection", len(conn_sw) + len(conn_eq), 1, cfg=fx.cfg)
+        tests = element_tests(fx, fn)
+        ctx.anchor("R14.3", "KBucket::entry: switch on nodes[i].connection", len([t for t in tests if t["kind"] == "conn"]), 1, cfg=fx.cfg)
         n_evict = 0
         for node, s_ in slots:
             f_ = dict(zip(s_["rv"].get("fields", []), s_["rv"]["ops"]))
@@ -155,97 +298,49 @@ def r14_3(ctx, fx):
             if sh == {"None"}:
                 continue    # append slot: R14.1
             n_evict += 1
-            # a replace slot designates nodes[i]: the index stored is the index whose `connection` was switched on
+            # a replace slot designates nodes[i]: the index stored is the index of the element whose `connection` was tested
             idxl = set()
             for l in (slice_locals(fn, f_["index"]) if "index" in f_ else ()):
                 d = fn.single_def(l)
                 if d and d[1] == "assign" and d[2]["rv"]["r"] == "agg" and d[2]["rv"].get("var") == "Some":
                     idxl |= slice_locals(fn, d[2]["rv"]["ops"][0])
-            ok = False
-            why = "no switch on the connection of the same element"
-            for sw in conn_sw:
-                swpr, swidx = _index_local(fn, {"c": [sw[1][0]]})
-                if swpr is None or not (swidx & idxl):
-                    continue
-                allowed = []
-                for v in ("NotConnected", "CannotConnect"):
-                    allowed += fn.variant_edges(sw, v)
-                bad_vars = [v for v in ("Connected", "CanConnect") if set(fn.variant_edges(sw, v)) & set(allowed)]
-                if fn.only_via(node, sw[0], allowed) and not bad_vars:
-                    ok = True
-                why = "allowed edges %s, shared with Connected/CanConnect: %s" % (allowed, bad_vars)
-            if not ok:
-                # the same test spelled `c == NotConnected || c == CannotConnect` on (a copy of) nodes[i].connection
-                allowed_eq = set()
-                for c in fn.calls(r"::eq$"):
-                    if len(c.args) != 2 or not c.dest:
-                        continue
-                    var = None
-                    other = None
-                    for a, b in ((c.args[0], c.args[1]), (c.args[1], c.args[0])):
-                        rs = fn.roots(a)
-                        sh = {x.lstrip("&") for x in fn.shape(a)}
-                        if (rs and all(r[0] == "const" and re.search(r"ConnectionType::(NotConnected|CannotConnect)$", r[1]) for r in rs)) or \
-                                (sh and sh <= {"NotConnected", "CannotConnect"}):
-                            var, other = a, b
-                    if other is None:
-                        continue
-                    # the other operand is nodes[i].connection for the slot's index
-                    linked = False
-                    from common import ref_local
-                    cand = set(slice_locals(fn, other))
-                    rl_ = ref_local(fn, other)
-                    if rl_ is not None:
-                        cand |= slice_locals(fn, {"c": [rl_]})
-                    for l in cand:
-                        for n_, k_, p_ in fn.defs().get(l, []):
-                            if k_ == "assign" and p_["rv"]["r"] in ("use", "ref"):
-                                q = (p_["rv"].get("o") or {}).get("c") or (p_["rv"].get("o") or {}).get("m") or p_["rv"].get("p")
-                                if q and "".join(map(str, q[1:])).endswith(".connection"):
-                                    pr_, il_ = _index_local(fn, {"c": [q[0]]})
-                                    if pr_ is not None and (il_ & idxl):
-                                        linked = True
-                    if linked:
-                        for sw_, t_, f_2 in fn.bool_tests(c.dest[0]):
-                            allowed_eq.add((sw_, t_))
-                if allowed_eq and node not in fn.reach([fn.entry], cut=allowed_eq):
-                    ok = True
-                    why = "behind `== NotConnected || == CannotConnect` on the same element"
+            ok = any(t["kind"] == "conn" and (t["idx"] & idxl) and _behind(fn, node, t) for t in tests)
+            why = "connection tests of an element: %d, of the element the slot designates: %d" % (len([t for t in tests if t["kind"] == "conn"]), len([t for t in tests if t["kind"] == "conn" and (t["idx"] & idxl)]))
             ctx.ob("R14.3", "KBucket::entry/replace-slot#%d-only-for-a-NotConnected|CannotConnect-entry" % n_evict, ok, site=fn.site(node), cfg=fx.cfg,
                    detail="a connected peer is never displaced: " + why)
         ctx.anchor("R14.3", "KBucket::entry: replace slots", n_evict, 1, cfg=fx.cfg)
         for node, s in occ:
             pr, idxl = _index_local(fn, s["rv"]["ops"][0])
-            ok = False
-            for c in fn.calls(r"PartialEq(<.*>)?>?::eq$"):
-                a0 = fn.origin(c.args[0])
-                lp, li = _index_local(fn, {"c": [int(re.match(r"&?_(\d+)", a0).group(1))]}) if re.match(r"&?_(\d+)", a0) else (None, set())
-                if lp is None or not (li & idxl) or not a0.endswith(".key"):
-                    continue
-                if guards.rootstrs(fn, c.args[1]) != {"param:_2"}:
-                    continue
-                ok = ok or any(fn.only_via(node, sw, [t]) for sw, t, f in fn.bool_tests(c.dest[0]))
+            ok = any(t["kind"] == "key" and (t["idx"] & idxl) and _behind(fn, node, t) for t in tests)
             ctx.ob("R14.3", "KBucket::entry/Occupied-only-if-nodes[i].key==key", ok, site=fn.site(node), cfg=fx.cfg)
         # the key lookup runs to completion before any slot is handed out as Vacant / NoSlot is answered: otherwise a peer stored
         # behind a disconnected entry would be "found" as Vacant and duplicated
-        eqs = [c for c in fn.calls(r"PartialEq(<.*>)?>?::eq$") if guards.rootstrs(fn, c.args[1]) == {"param:_2"} and fn.origin(c.args[0]).endswith(".key")]
-        nxt = [c for c in fn.calls(r"Iterator>?::next$|iter::range::(<impl .*>::)?next$")]
+        keyt = [t for t in tests if t["kind"] == "key"]
+        outs = [n for n, s2 in vac] + [n for n, s2 in fn.aggregates(r"KBucketEntry$", "NoSlot")]
         look = None
-        for c in nxt:
-            sws = [sw for sw in fn.discr_switches() if sw[1][0] in fn.copies_of(c.dest[0]) and len(sw[1]) == 1]
-            if not sws:
-                continue
-            body = fn.reach([m for m, l in fn.succs(sws[0][0]) if l in fn.variant_edges(sws[0], "Some")], avoid=[c.node])
-            if any(e.node in body for e in eqs):
-                look = (c, sws[0])
+        for t in keyt:
+            if t.get("position"):
+                look = ("position", t)
+                break
+            for c in fn.calls(r"Iterator>?::next$|iter::range::(<impl .*>::)?next$"):
+                sws = [sw for sw in fn.discr_switches() if sw[1][0] in fn.copies_of(c.dest[0]) and len(sw[1]) == 1]
+                if not sws:
+                    continue
+                body = fn.reach([m for m, l in fn.succs(sws[0][0]) if l in fn.variant_edges(sws[0], "Some")], avoid=[c.node])
+                if t["site"] in body:
+                    look = ("loop", (c, sws[0]))
         ctx.anchor("R14.3", "KBucket::entry: key-lookup loop", 1 if look else 0, 1, cfg=fx.cfg)
-        if look:
-            c, sw = look
+        if look and look[0] == "loop":
+            c, sw = look[1]
             done = fn.variant_edges(sw, "None")
-            outs = [n for n, s2 in vac] + [n for n, s2 in fn.aggregates(r"KBucketEntry$", "NoSlot")]
             late = [fn.site(n) for n in outs if not fn.only_via(n, sw[0], done)]
             ctx.ob("R14.3", "KBucket::entry/lookup-completes-before-a-slot-is-handed-out", not late, site=fn.site(c.node), cfg=fx.cfg,
                    detail="Vacant / NoSlot reachable before every stored key was compared: %s" % late)
+        elif look:
+            t = look[1]
+            late = [fn.site(n) for n in outs if not t["miss"] or n in fn.reach([fn.entry], cut=t["miss"])]
+            ctx.ob("R14.3", "KBucket::entry/lookup-completes-before-a-slot-is-handed-out", not late, site=fn.site(t["site"]), cfg=fx.cfg,
+                   detail="Vacant / NoSlot reachable without the None answer of the key search: %s" % late)
     fn = ctx.fn(fx, KB + "KBucketEntry::<'a>::insert", "R14.3")
     if fn is not None:
         sws = [sw for sw in fn.discr_switches() if sw[2] and sw[2].endswith("KBucketEntry")]
@@ -289,6 +384,11 @@ def r14_3(ctx, fx):
                     else:
                         fields.add(s_["lhs"][2].lstrip("."))
             ok_w = bool(whole) and all(s_["rv"]["r"] == "use" and (set(slice_locals(vfn, s_["rv"]["o"])) & keyed) for s_ in whole)
+            # `mem::replace(&mut nodes[i], new)` / `mem::swap`: the same whole-element write through a library call
+            swaps = [m_ for m_ in vfn.calls(r"mem::(replace|swap)$") if len(m_.args) == 2 and (slice_locals(vfn, m_.args[0]) & refs or (vfn.producer(m_.args[0]) is not None and vfn.producer(m_.args[0]).node == c.node))]
+            if not whole and swaps:
+                whole = swaps
+                ok_w = all(set(slice_locals(vfn, m_.args[1])) & keyed for m_ in swaps)
             ok_f = "key" in fields
             ctx.ob("R14.3", "VacantSlot::insert/replace-arm#%d-stores-the-new-peer's-key" % i_, ok_w or (not whole and ok_f), site=vfn.site(c.node), cfg=fx.cfg,
                    detail="whole-element writes from the re-keyed value: %s; fields written one by one: %s" % (ok_w, sorted(fields)))
@@ -364,16 +464,24 @@ def r14_4(ctx, fx):
 
 def r14_5(ctx, fx):
     fn = ctx.fn(fx, KB + "KBucket::closest_iter", "R14.5")
-    c0 = ctx.fn(fx, KB + "KBucket::closest_iter::{closure#0}", "R14.5")
-    c1 = ctx.fn(fx, KB + "KBucket::closest_iter::{closure#1}", "R14.5")
-    if fn is None or c0 is None or c1 is None:
+    if fn is None:
         return
-    rets = closure_returns(c1)
-    ok = bool(rets) and all(r is not None and r[0] == -1 and r[1].matches(r"AddressStore::is_empty$") for r in rets)
-    ctx.ob("R14.5", "closest_iter/filter-keeps-peers-with-addresses", ok, site=c1.site(c1.entry), cfg=fx.cfg, detail=str(rets))
+    # the two closures by role, not by index: the one handed to the sort, the one handed to filter / filter_map / retain
+    srt = fn.calls(r"sort_by_key$|sort_by_cached_key$|sort_unstable_by_key$|sort(_unstable)?_by$")
+    flt = fn.calls(r"Iterator>?::(filter|filter_map)$|Vec(<.*>)?::retain$")
+    ctx.anchor("R14.5", "closest_iter: sort_by_key + filter", min(len(srt), len(flt)), 1, cfg=fx.cfg)
+    c0 = closure_operand(fx, fn, srt[0].args[1]) if srt and len(srt[0].args) > 1 else None
+    c1 = closure_operand(fx, fn, flt[0].args[1]) if flt and len(flt[0].args) > 1 else None
+    ctx.anchor("R14.5", "closest_iter: sort closure + filter closure", (c0 is not None) + (c1 is not None), 2, cfg=fx.cfg)
+    if c0 is None or c1 is None:
+        return
+    ctx.bodies.add((fx.cfg, c0.key))
+    ctx.bodies.add((fx.cfg, c1.key))
+    ok = keeps_iff(c1, r"AddressStore::is_empty$", -1)
+    ctx.ob("R14.5", "closest_iter/filter-keeps-peers-with-addresses", ok, site=c1.site(c1.entry), cfg=fx.cfg, detail=str(closure_returns(c1)))
+    srt_by = [c for c in srt if re.search(r"sort(_unstable)?_by$", c.name)]
     d = [c for c in c0.calls(r"Key::distance$") if c.dest == [0]]
     ok = len(d) == 1 and "target" in c0.origin(d[0].args[0]) and c0.origin(d[0].args[1]).endswith(".key")
-    srt_by = fn.calls(r"sort(_unstable)?_by$")
     if not ok and srt_by:
         # `sort_by(|a, b| target.distance(&a.key).cmp(&target.distance(&b.key)))`: ascending in the same key
         ds = c0.calls(r"Key::distance$")
@@ -384,16 +492,19 @@ def r14_5(ctx, fx):
             ok = any(x.startswith("_2") for x in first) and not any(x.startswith("_3") for x in first) and any(x.startswith("_3") for x in second) and not any(x.startswith("_2") for x in second)
     ctx.ob("R14.5", "closest_iter/sort-key-is-target.distance(peer.key)", ok, site=c0.site(c0.entry), cfg=fx.cfg,
            detail="distance calls: %s" % [(c0.origin(c.args[0]), c0.origin(c.args[1])) for c in d])
-    srt = fn.calls(r"sort_by_key$|sort_by_cached_key$|sort_unstable_by_key$") or srt_by
-    flt = fn.calls(r"Iterator::filter$")
-    ctx.anchor("R14.5", "closest_iter: sort_by_key + filter", min(len(srt), len(flt)), 1, cfg=fx.cfg)
-    if srt and flt:
-        ctx.ob("R14.5", "closest_iter/sorted-before-returned", srt[0].node not in fn.reach([fn.entry], avoid=[]) - fn.reach_back([flt[0].node]) and closure_arg(fn, srt[0], "closest_iter::{closure#0}")
-               and closure_arg(fn, flt[0], "closest_iter::{closure#1}") and flt[0].dest == [0], site=fn.site(srt[0].node), cfg=fx.cfg)
+    # what is returned is the filtered view of the sorted list: the sort comes before the filter, the filter result is the return value
+    ctx.ob("R14.5", "closest_iter/sorted-before-returned", flt[0].node in fn.reach([srt[0].node], after=True) and srt[0].node not in fn.reach([flt[0].node], after=True) and flt[0].dest == [0],
+           site=fn.site(srt[0].node), cfg=fx.cfg)
     fn = ctx.fn(fx, RT + "RoutingTable::closest", "R14.5")
     if fn is not None:
         tk = fn.calls(r"Iterator::take$")
         ok = len(tk) == 1 and guards.rootstrs(fn, tk[0].args[1]) == {"param:_3"}
+        if not tk:
+            # the same bound as a loop: a peer is pushed onto the result only while `result.len() < limit`
+            pushes = [c for c in fn.calls(r"Vec(<.*>)?::push$") if not c.from_macro]
+            is_q = lambda f, o: any(l.dest[0] in slice_locals(f, o) for l in f.calls(r"Vec(<.*>)?::len$"))
+            is_b = lambda f, o: guards.rootstrs(f, o) == {"param:_3"}
+            ok = bool(pushes) and all(guards.guarded(fn, c.node, is_q, is_b, "<")[0] for c in pushes)
         ctx.ob("R14.5", "RoutingTable::closest/take(limit)", ok, site=fn.site(fn.entry), cfg=fx.cfg,
                detail="take calls: %s" % [sorted(guards.rootstrs(fn, t.args[1])) for t in tk])
         ci = fn.calls(r"ClosestBucketsIter::new$")
@@ -481,6 +592,16 @@ def r14_7(ctx, fx):
                     ok = any("HashMap::get" in x for x in rs) and any(re.search(r"^param:_1.*\.peers", x) for x in rs) and dflt == {"NotConnected"} \
                         and some_val == {"Connected"}
                     why = "map_or receiver roots %s default %s closure yields %s" % (sorted(x for x in rs if "get" in x or "peers" in x), sorted(dflt), some_val)
+            elif sh == {"Connected", "NotConnected"}:
+                # the same choice spelled with match / if on `self.peers.contains_key(..)` / `get(..)`: Connected is chosen only on
+                # the edge where the peer is present in the live set, NotConnected only where it is absent
+                present, absent = map_presence_edges(fn, "peers")
+                sl = slice_locals(fn, c.args[3]) | {(c.args[3].get("m") or c.args[3].get("c") or [None])[0]}
+                conn = [n_ for n_, s_ in fn.assigns() if s_["lhs"][0] in sl and len(s_["lhs"]) == 1 and s_["rv"]["r"] == "agg" and s_["rv"].get("var") == "Connected"]
+                notc = [n_ for n_, s_ in fn.assigns() if s_["lhs"][0] in sl and len(s_["lhs"]) == 1 and s_["rv"]["r"] == "agg" and s_["rv"].get("var") == "NotConnected"]
+                ok = bool(present) and bool(absent) and bool(conn) and bool(notc) and all(n_ not in fn.reach([fn.entry], cut=present) for n_ in conn) \
+                    and all(n_ not in fn.reach([fn.entry], cut=absent) for n_ in notc)
+                why = "Connected assigned only behind `peer present in self.peers` (%d sites), NotConnected only behind absent (%d sites): %s" % (len(conn), len(notc), ok)
             ctx.ob("R14.7", "%s/add_known_peer#%d-connectivity-from-the-live-peer-set" % (short(key), i), ok, site=fn.site(c.node), cfg=fx.cfg, detail=why)
     ctx.anchor("R14.7", "add_known_peer call sites", m, 3, cfg=fx.cfg)
 
